@@ -119,6 +119,19 @@ def judge(prop, f, impl, model, spec):
             j.mismatch = "built query plan differs: impl=%s model=%s" % (impl[:300], model[:300])
         j.nontrivial = impl.startswith("plan:")
         return j
+    if kind == "hist" and prop != "C04":
+        # a history run inside another property's check: the result of every evaluation of the shared
+        # expression must be the fresh result (and the model's)
+        if impl.startswith("hist:"):
+            for i, pair in enumerate(impl[5:].split(";")):
+                if "~" in pair:
+                    got, want = pair.split("~", 1)
+                    if got != want:
+                        j.viol = "evaluation %d of the same compiled expression gives %s, a fresh compile gives %s" % (i, got, want)
+                        break
+            j.nontrivial = True
+        cmp_model(j, impl, model, in_fragment=not re.search(r"\]\s*\[\s*last\(\)", expr))
+        return j
     if prop in ("C01", "C02", "C03"):
         judge_nodeset(j, f, impl, model, spec)
     elif prop == "C11":
@@ -240,6 +253,17 @@ def judge(prop, f, impl, model, spec):
                         j.viol = "a concurrent get returned a value that is not load(key)"
                     elif capv > 0 and int(size) > capv:
                         j.viol = "after concurrent misses the cache holds %s entries, capacity is %d" % (size, capv)
+            j.nontrivial = True
+        elif kind == "rxcache":
+            if not impl.startswith("rx:"):
+                j.viol = "pattern-cache history failed: " + impl[:200]
+            else:
+                for i, o in enumerate(impl[3:].split(",")):
+                    if o.startswith("bad:"):
+                        j.viol = "op %d: the regex function did not use the compilation of the requested pattern by the current cache's loader (or failed with a runtime error): %s" % (i, o[:200])
+                        break
+                if not j.viol and impl != model:
+                    j.mismatch = "pattern-cache history differs from the verified cache model (loader calls / entries): impl=%s model=%s" % (impl[:300], model[:300])
             j.nontrivial = True
         elif kind == "regex":
             if impl.startswith("regex:"):
